@@ -179,23 +179,32 @@ type CallRec struct {
 	Ev    string            `json:"ev"`
 	Fn    string            `json:"fn"`
 	Args  []int             `json:"args"`
+	CtxFn string            `json:"ctxfn"` // a message sent before through the same listener ("" = none): a loopback has state
+	CtxA  []int             `json:"ctxargs"`
 	Bytes hx.B              `json:"bytes"`
 	Acc   map[string]accRes `json:"acc"`
 	Loop  []hx.B            `json:"loop"`
 	Panic string            `json:"panic"`
 }
 
-func doCall(fn string, args []int) *CallRec {
-	r := &CallRec{Ev: "call", Fn: fn, Args: args, Loop: []hx.B{}, Acc: map[string]accRes{}}
+func doCall(fn string, args []int, ctx ...interface{}) *CallRec {
+	r := &CallRec{Ev: "call", Fn: fn, Args: args, Loop: []hx.B{}, Acc: map[string]accRes{}, CtxA: []int{}}
 	if r.Args == nil {
 		r.Args = []int{}
+	}
+	if len(ctx) == 2 {
+		r.CtxFn, r.CtxA = ctx[0].(string), ctx[1].([]int)
 	}
 	r.Panic = hx.Catch(func() {
 		m := construct(fn, args)
 		r.Bytes = append(hx.B{}, m...)
 		r.Acc = allMidiAcc(m)
-		// a fresh loopback per call: running status state of an earlier call must not matter
-		for _, g := range newLoop().roundtrip(m) {
+		// a fresh loopback per record; an optional context message goes through the same listener first
+		lp := newLoop()
+		if r.CtxFn != "" {
+			lp.roundtrip(construct(r.CtxFn, r.CtxA))
+		}
+		for _, g := range lp.roundtrip(m) {
 			r.Loop = append(r.Loop, append(hx.B{}, g...))
 		}
 	})
@@ -349,6 +358,10 @@ func (t *Tables) checkCall(fn string, a []int, lp *loop) string {
 			}
 		}
 		if lp != nil {
+			if len(a) >= 2 && fn != "SPP" { // context: the same kind of message on the neighbouring channel, same listener
+				ca := append([]int{(a[0] + 1) % 16}, a[1:]...)
+				lp.roundtrip(construct(fn, ca))
+			}
 			g := lp.roundtrip(m)
 			if len(g) != 1 || string(g[0]) != string(m) {
 				why = "loopback"
@@ -521,6 +534,9 @@ func cmdCtorSweep(args []string) {
 	w := hx.Create(*samples)
 	for _, b := range bads {
 		w.Put(doCall(b.Fn, b.Args))
+		if len(b.Args) >= 2 {
+			w.Put(doCall(b.Fn, b.Args, b.Fn, append([]int{(b.Args[0] + 1) % 16}, b.Args[1:]...)))
+		}
 	}
 	r := rand.New(rand.NewSource(*seed))
 	cb := []int{0, 1, 15, 16, 17, 127, 128, 255}
@@ -571,7 +587,21 @@ func cmdCtorSweep(args []string) {
 		default:
 			a = []int{}
 		}
-		w.Put(doCall(fn, a))
+		if len(a) >= 2 && w.N%2 == 0 { // half of the samples with a context message on another channel / of another kind
+			cfn := fn
+			if r.Intn(4) == 0 {
+				cfn = []string{"NoteOn", "NoteOffVelocity", "PolyAfterTouch", "ControlChange"}[r.Intn(4)]
+			}
+			ca := []int{r.Intn(16), r.Intn(128), r.Intn(128)}
+			if cfn == "Pitchbend" {
+				ca = []int{r.Intn(16), r.Intn(16384) - 8192}
+			} else if cfn == "NoteOff" || cfn == "ProgramChange" || cfn == "AfterTouch" {
+				ca = ca[:2]
+			}
+			w.Put(doCall(fn, a, cfn, ca))
+		} else {
+			w.Put(doCall(fn, a))
+		}
 	}
 	w.Close()
 	res := map[string]interface{}{"calls": calls, "loopbacks": looped, "bad": bads, "full": *full, "samples": w.N}
@@ -733,6 +763,8 @@ func (t *Tables) clsOk(r *ClsRec) bool {
 	return true
 }
 
+var t0clsOk func(tail []byte, r *ClsRec) bool
+
 func cloneCls(r *ClsRec) *ClsRec {
 	c := *r
 	c.Bytes = append(hx.B{}, r.Bytes...)
@@ -754,6 +786,7 @@ func cmdClsSweep(args []string) {
 	full := fs.Bool("full", false, "all 256^3 strings of length 3 (else the second and third byte from a 40-value boundary alphabet)")
 	fs.Parse(args)
 	t := loadTables(*tp)
+	t0clsOk = func(_ []byte, r *ClsRec) bool { return t.clsOk(r) }
 	alpha := []int{}
 	if *full {
 		for i := 0; i < 256; i++ {
@@ -826,6 +859,49 @@ func cmdClsSweep(args []string) {
 		}
 	}
 	wg.Wait()
+	// meta-shaped strings FF <type> <length field> ...: every type with every short length-field shape -- unterminated
+	// variable-length quantities (all bytes with the high bit), terminated ones with too little / exact / too much payload
+	{
+		var tails [][]byte
+		hi := []byte{0x80, 0x81, 0xFF}
+		var gen func(prefix []byte, n int)
+		gen = func(prefix []byte, n int) { // unterminated length fields: every byte has the high bit
+			if n == 0 {
+				return
+			}
+			for _, h := range hi {
+				t := append(append([]byte{}, prefix...), h)
+				tails = append(tails, t)
+				gen(t, n-1)
+			}
+		}
+		gen(nil, 5)
+		// terminated length fields with a tiny declared length (plain, padded, two-byte) and 0..5 payload bytes
+		for _, pre := range [][]byte{{}, {0x80}, {0x81}, {0x80, 0x80}, {0x80, 0x80, 0x80}, {0x80, 0x80, 0x80, 0x80}} {
+			for _, last := range []byte{0, 1, 2, 3, 5} {
+				for pay := 0; pay <= 5; pay++ {
+					tails = append(tails, append(append(append([]byte{}, pre...), last), make([]byte, pay)...))
+				}
+			}
+		}
+		var rec ClsRec
+		for _, lvl := range []string{"midi", "smf"} {
+			for typ := 0; typ < 256; typ++ {
+				for _, t := range tails {
+					b := append([]byte{0xFF, byte(typ)}, t...)
+					classify(lvl, b, true, &rec)
+					total++
+					if !t0clsOk(t, &rec) {
+						if len(bads) < 60 {
+							bads = append(bads, cloneCls(&rec))
+						}
+					} else if (typ*7+len(t))%97 == 0 {
+						keep = append(keep, cloneCls(&rec))
+					}
+				}
+			}
+		}
+	}
 	w := hx.Create(*samples)
 	for i, b := range bads {
 		if i < 40 {
@@ -893,12 +969,18 @@ func cmdRerun(args []string) {
 			Args  []int  `json:"args"`
 			Lvl   string `json:"lvl"`
 			Bytes hx.B   `json:"bytes"`
+			CtxFn string `json:"ctxfn"`
+			CtxA  []int  `json:"ctxargs"`
 		}
 		if err := json.Unmarshal(l, &head); err != nil {
 			hx.Die(err)
 		}
 		if head.Ev == "call" {
-			w.Put(doCall(head.Fn, head.Args))
+			if head.CtxFn != "" {
+				w.Put(doCall(head.Fn, head.Args, head.CtxFn, head.CtxA))
+			} else {
+				w.Put(doCall(head.Fn, head.Args))
+			}
 		} else {
 			var rec ClsRec
 			classify(head.Lvl, head.Bytes, true, &rec)
